@@ -177,8 +177,17 @@ def _run(ex: Executor, w: World, src: FunctionSource, contract: Contract, res: F
     if not os.environ.get("PYVC_SPLIT_OUTCOMES") and len(finals) > 2:
         # one obligation set per kind of exit: all returns joined, all raises joined (PYVC_SPLIT_OUTCOMES=1 keeps the sites apart)
         merged = []
-        for kind in ("return", "raise"):
-            group = [o for o in finals if o.kind == kind]
+        groups = [[o for o in finals if o.kind == "return"]]
+        # raise sites are grouped by the (static) class of the exception they raise
+        by_cls = {}
+        for o in finals:
+            if o.kind == "raise":
+                by_cls.setdefault(getattr(o.val.ty, "__qualname__", repr(o.val.ty)), []).append(o)
+        groups.extend(by_cls.values())
+        for group in groups:
+            if not group:
+                continue
+            kind = group[0].kind
             if len(group) <= 1:
                 merged.extend(group)
                 continue
@@ -191,8 +200,11 @@ def _run(ex: Executor, w: World, src: FunctionSource, contract: Contract, res: F
         finals = merged
     tag = contract.name.split(".")[-1]
     raises = contract.raises
-    for o in finals:
-        res.outcomes[o.kind] += getattr(res, "outcomes_split", {}).get(o.kind, 1) if len(finals) <= 2 and hasattr(res, "outcomes_split") else 1
+    if hasattr(res, "outcomes_split"):
+        res.outcomes = dict(res.outcomes_split)
+    else:
+        for o in finals:
+            res.outcomes[o.kind] += 1
     for idx, o in enumerate(finals):
         s = o.st
         names = dict(bind)
@@ -236,6 +248,8 @@ def _run(ex: Executor, w: World, src: FunctionSource, contract: Contract, res: F
             ety = getattr(exc.ty, "__name__", str(exc.ty))
             ex.oblige(s, z3.Or(allowed) if allowed else z3.BoolVal(False), f"raises.allowed.x{idx}", "post", o.node if o.node is not None else fn, f"only the declared exceptions, under their conditions (here: {ety} raised at line {site})")
             for ec, spec in raises.items():
+                if isinstance(exc.ty, type) and not issubclass(exc.ty, ec) and not issubclass(ec, exc.ty):
+                    continue  # statically a different exception class
                 isa = ex.isinstance_term(s, exc, (ec,))
                 s2 = s.fork()
                 s2.assume(isa)
@@ -284,8 +298,8 @@ def _frame(ex: Executor, contract: Contract, pre: State, s: State, bind, tag, no
         goals.append(goal)
         fields.append(f)
     for g, term in s.ghost.items():
-        if g == "$alloc" or g in ghosts_ok:
-            continue
+        if g in ("$alloc", "$treever") or g in ghosts_ok:
+            continue  # ($treever only ever over-approximates 'some dict may have changed')
         old = pre.ghost.get(g)
         if old is None:
             old = z3.Const(f"G0_{g}", term.sort())
